@@ -73,6 +73,7 @@ BOUNDS = {
         "decode_template_routes": "utf-8",
         "template_route_contexts": 2,
         "charsets": ["ascii", "latin-1", "cp1251", "shift_jis", "utf-8"],
+        "other_charsets": "13 stateful / EBCDIC / multi-byte / utf-16,32,7 charsets x every string of <=3 characters over a 10-character alphabet (template route for <=2)",
     },
     "thorough": {
         "sequences": "handler/filters 20 characters (4 per class) x 5 charsets; policies 4 charsets x 3; 6+6+2 pairs of value kinds; 3 pairs of decode encodings; 6 encodings malformed/well-formed bytes; x 2 orders = 270 fresh interpreters",
@@ -84,6 +85,7 @@ BOUNDS = {
         "decode_template_routes": "all",
         "template_route_contexts": 8,
         "charsets": ["ascii", "latin-1", "cp1251", "shift_jis", "utf-8"],
+        "other_charsets": "13 stateful / EBCDIC / multi-byte / utf-16,32,7 charsets x every string of <=3 characters over a 10-character alphabet (template route for <=2)",
     },
 }
 
@@ -1063,6 +1065,70 @@ NJOBS_SEQ = 16
 NJOBS_REF = 4
 
 
+# --------------------------------------------------------------------------
+# (vii) "every ... target charset": charsets that keep a shift state between characters (iso2022_*, hz), that are not
+# ASCII-compatible (EBCDIC code pages, utf-16/32), and multi-byte ones.  Every string of <= 3 characters over a
+# 10-character alphabet (ASCII, &, kana, hanzi, hangul, latin-1, named-entity, Cyrillic, astral, C1 control).
+# Oracle per character: a character the charset can encode (alone) stays itself, any other becomes exactly the
+# reference the handler emits for the ascii charset (judged by the five-charset clause); the output, decoded in the
+# target charset, is the concatenation.
+
+XCS = ["iso2022_jp", "iso2022_jp_2", "iso2022_kr", "hz", "cp500", "cp037", "cp1140", "euc_jp", "big5", "gb2312", "utf_16", "utf_32_be", "utf_7"]
+XCS_ALPHA = ["a", "&", "\u3042", "\u4e2d", "\uac00", "\u00e9", "\u20ac", "\u0436", "\U0001f600", "\u0085"]
+
+
+def check_xcs(cs, s, st, tmpl_f=None):
+    parts = []
+    for c in s:
+        try:
+            c.encode(cs)
+            parts.append(c)
+        except UnicodeEncodeError:
+            parts.append(c.encode("ascii", "htmlentityreplace").decode("ascii"))
+    exp = "".join(parts)
+    st.evaluations += 1
+    st.transitions += 1
+    st.oracles["htmlentityreplace-other-charsets"] += 1
+    try:
+        if tmpl_f is None:
+            out = s.encode(cs, "htmlentityreplace")
+        else:
+            out = tmpl_f(v=s)
+        obs = out.decode(cs)
+    except Exception as e:  # noqa
+        obs = "%s: %s" % (type(e).__name__, str(e)[:120])
+    ok = obs == exp
+    st.outcomes["xcs:" + ("replaced" if exp != s else "strict") + (":ok" if ok else ":differs")] += 1
+    if not ok:
+        kind = "stateful" if cs.startswith(("iso2022", "hz")) else ("ebcdic" if cs.startswith("cp") else "other")
+        st.violation("enc.other-charset:%s:%s" % (kind, "raises" if ": " in obs and obs.split(":")[0].endswith("Error") else "does not decode back"),
+                     {"kind": "xcs", "cs": cs, "s": s, "route": "direct" if tmpl_f is None else "template"},
+                     "htmlentityreplace in a %s charset: decode(output) == encodable characters + references" % kind, expected=exp, observed=obs)
+
+
+def run_xcs(shard, nshards, st):
+    import itertools
+    from mako.template import Template
+
+    n = 0
+    for ci, cs in enumerate(XCS):
+        if ci % nshards != shard:
+            continue
+        t = Template("${v}", output_encoding=cs, encoding_errors="htmlentityreplace")
+        for k in (1, 2, 3):
+            for tup in itertools.product(XCS_ALPHA, repeat=k):
+                s = "".join(tup)
+                check_xcs(cs, s, st)
+                if k <= 2:
+                    check_xcs(cs, s, st, t.render)
+                n += 1
+                st.states += 1
+                st.traces += 1
+                if any(c.encode(cs, "ignore") == b"" for c in tup) and len(set(tup)) > 1:
+                    st.nontrivial += 1
+    st.extra["strings_vii"] = n
+
+
 def plan(tier, seed):
     jobs = []
     for i in range(NJOBS_CP):
@@ -1071,6 +1137,8 @@ def plan(tier, seed):
         jobs.append({"kind": "words", "tier": tier, "seed": seed, "shard": i, "nshards": NJOBS_W})
     for i in range(NJOBS_REF):
         jobs.append({"kind": "refs", "tier": tier, "seed": seed, "shard": i, "nshards": NJOBS_REF})
+    for i in range(4):
+        jobs.append({"kind": "xcs", "tier": tier, "seed": seed, "shard": i, "nshards": 4})
     groups = seq_groups(tier, seed)
     seqjobs = [{"kind": "seq", "tier": tier, "seed": seed, "groups": groups[i::NJOBS_SEQ]} for i in range(NJOBS_SEQ)]
     # heavy (cp) shards first, permuted by the seed
@@ -1085,6 +1153,9 @@ def run_job(job):
     if job["kind"] == "seq":
         check_sequences(job["groups"], seed, st)
         st.extra["worker_wall_s_seq"] = round(time.time() - t0, 1)
+        return st
+    if job["kind"] == "xcs":
+        run_xcs(job["shard"], job["nshards"], st)
         return st
     I = impl(seed)
     I["seed"] = seed
@@ -1176,6 +1247,17 @@ def replay(case):
         bare = {k: v for k, v in case.items() if k != "prelude"}
         ok = core.isolated_replay(MODNAME, list(case["prelude"]) + [bare])
         return ok, {False: "reproduced after its prelude, in a fresh interpreter", True: "holds", None: "replay failed"}[ok]
+    if case.get("kind") == "xcs":
+        st = Stats()
+        tf = None
+        if case.get("route") == "template":
+            from mako.template import Template
+
+            tf = Template("${v}", output_encoding=case["cs"], encoding_errors="htmlentityreplace").render
+        check_xcs(case["cs"], case["s"], st, tf)
+        if st.violations:
+            return False, "reproduced: %r" % (st.violations[0]["observed"],)
+        return True, "holds"
     if case.get("kind") == "seq":
         r = sequence_in_child({k: case[k] for k in ("kind", "steps", "strings", "seed")})
         for f in r["fails"]:
